@@ -10,7 +10,7 @@
 //!   W k fam addr/len             withdraw one prefix
 //!   D k fam|-                    Update::Withdraw(id, family?) (session lost)
 //!   Q af addr/len rawquery|-     GET /prefixes/<prefix>[?rawquery]   (af 4|6)
-//!   G method path rawquery|-     any other request
+//!   G method path rawquery|-     any other request (debugging aid only: not in the oracle's grammar)
 //! Observation per op: '-' for population ops; for requests
 //!   <status>[:d[entries]:l[entries]|l-:m[entries]|m-]   entries sorted, `fam:addr/len@pK=<A|W>tag`
 use crate::util::ops;
